@@ -234,7 +234,7 @@ static bool GC_Mem_Ptr(struct GC* gc, var ptr) {
 
 static void GC_Rem_Ptr(struct GC* gc, var ptr) {
   
-  if (gc->nslots is 0) { return; }
+  if (gc->nslots is 0 or ptr is NULL) { return; }
   
   /* deleted by a destructor while it is waiting to be swept */
   for (size_t i = 0; i < gc->freenum; i++) {
